@@ -129,6 +129,47 @@ def run(ctx):
         return None if io == want else "serialize_and_sign(%r) is not the signature over the canonical serialization of that value" % (pl,)
     core.run_stream(ctx, core.Stream("serialize_and_sign signs exactly the canonical bytes (strings that look like JSON text included)", scases,
                                      lambda c, io, mo: None if io == mo else "signature differs from the model's", soracle))
+    # the same through the envelope API: wrap_as_signable + sign_signable must sign the canonical bytes of exactly the value given --
+    # JSON values that Python's == identifies (true / 1 / 1.0, 0.0 / -0.0) included, at every depth
+    twins = [True, False, 1, 0, 1.0, -0.0, 0.0, {"x": True}, {"x": 1}, {"x": 1.0}, [True, 1, 1.0, False, 0, -0.0], {"a": {"b": [False, {"c": True}]}},
+             {"noarch": True, "n": 0}, [[True]], {"t": [1.0, 1]}, "true", None]
+    wcases = [{"w": wire.case("sign_sequence", pl, [SEEDS[0]]), "meta": {"tag": "wrap-sign"}} for pl in twins]
+
+    def woracle(c, io):
+        pl = wire.dec(c["w"])[1]
+        if not io.startswith("O"):
+            return "wrapping and signing a JSON value failed: %s" % core.impl_class(io)
+        env = wire.dec(io[1:])
+        cb = json.dumps(pl, indent=2, sort_keys=True).encode("utf-8")
+        if json.dumps(env.get("signed"), indent=2, sort_keys=True).encode("utf-8") != cb:
+            return "the envelope's payload no longer has the canonical bytes of the value that was wrapped (%r)" % (pl,)
+        sig = env["signatures"].get(PUBHEX0, {}).get("signature")
+        if sig != ed_sign(SEEDS[0], cb).hex():
+            return "the signature in the envelope is not over the canonical bytes of the value that was wrapped (%r)" % (pl,)
+        return None
+    from gen import PUBHEX
+    PUBHEX0 = PUBHEX[0]
+    core.run_stream(ctx, core.Stream("wrap_as_signable + sign_signable sign exactly the canonical bytes of the value given (==-equal JSON twins)", wcases,
+                                     lambda c, io, mo: None if io == mo else "envelope differs from the model's", woracle))
+    # the stored bytes are a function of the value written, not of what the file held before: v1 then an ==-equal but different v2
+    pairs = [({"noarch": 1}, {"noarch": True}), ({"v": 1.0}, {"v": 1}), ([0.0], [-0.0]), ({"a": [True, 2]}, {"a": [1, 2]}), (1, True), ({"x": {"y": 0}}, {"x": {"y": False}}),
+             ({"b": 1, "a": 2}, {"a": 2, "b": 1}), ({"k": "v"}, {"k": "v"})]
+    hcases = []
+    for a, b in pairs:
+        for x, y in ((a, b), (b, a)):
+            hcases.append({"w": wire.case("persist_history", x, [["write"], ["replace", y], ["write"]]), "meta": {"tag": "rewrite"}})
+
+    def horacle(c, io):
+        _, x, ops = wire.dec(c["w"])
+        y = ops[1][1]
+        if not io.startswith("O"):
+            return "writing a JSON value over a file holding another failed: %s" % core.impl_class(io)
+        raw = wire.dec(io[1:])[-2]
+        if raw != json.dumps(y, indent=2, sort_keys=True).encode("utf-8"):
+            return "after writing %r over a file that held %r the stored bytes are not the canonical bytes of the value written" % (y, x)
+        return None
+    core.run_stream(ctx, core.Stream("stored bytes depend on the value written, not on the file's previous content (==-equal twins, both orders)", hcases,
+                                     lambda c, io, mo: None if io == mo else "history outcome differs from the model's", horacle))
     # the same values after the rest of the package ran in the same process
     core.history_independence(ctx, "canonical bytes do not depend on what the process did before", [c["w"] for c in cases[:40]] + [c["w"] for c in pcases[:20]])
     # the parser model against json.loads: canonical texts, other valid texts, invalid texts
